@@ -112,6 +112,7 @@ func TestC01(t *testing.T) {
 	sum := &summary{Paths: map[string]int{}}
 	seq := 0
 	seen := map[string]bool{}
+	ctl := sched.Install(seed)
 	for ci, cfg := range cfgs {
 		c, err := cluster.Start(cluster.Options{Replicas: cfg.Replicas, Partitions: cfg.Partitions, TableSize: cfg.TableSize,
 			ReadRepair: cfg.ReadRepair, Manual: true}, cfg.Members)
@@ -210,7 +211,14 @@ func TestC01(t *testing.T) {
 				sum.Evaluations++
 				scripts = append(scripts, Script{Client: fmt.Sprintf("c%d", ci2), Path: p, Steps: []Step{st}})
 			}
+			if round%2 == 1 {
+				// every second round the operations are also delayed at the points inside the owner's
+				// critical sections, which widens every race window there is
+				ctl.Delays(sched.Rule{Prefix: "put.", Prob: 0.5, Max: 2 * time.Millisecond}, sched.Rule{Prefix: "entry.", Prob: 0.5, Max: 2 * time.Millisecond},
+					sched.Rule{Prefix: "del.", Prob: 0.5, Max: 2 * time.Millisecond}, sched.Rule{Prefix: "get.", Prob: 0.5, Max: 2 * time.Millisecond})
+			}
 			rec.RunBarrier("c01", scripts)
+			ctl.Delays()
 			rec.Run("c01", []Script{{Client: "fin", Path: paths[rng.Intn(len(paths))], Steps: []Step{{Op: "get", Key: key}}}}, nil)
 			hs := rec.Split()
 			Emit(w, hs, &seq, trace.Ev{"cfg": cfg.String(), "contention": true})
